@@ -505,6 +505,12 @@ def parse_template(text):
                 buf = []
             items.append(('include', st[len('//@include '):].strip()))
             i += 1
+        elif st.startswith('//@const '):
+            if buf:
+                items.append(('text', '\n'.join(buf) + '\n'))
+                buf = []
+            items.append(('const', parse_kv(st[len('//@const '):])))
+            i += 1
         elif st.startswith('//@lift '):
             if buf:
                 items.append(('text', '\n'.join(buf) + '\n'))
@@ -971,6 +977,28 @@ def build_unit(template_path, repo, canary=False, include_root=None):
         if kind_ == 'text':
             t = val[:-1] if val.endswith('\n') else val
             emit_text(t)
+        elif kind_ == 'const':
+            # L5: a `const NAME: T = V;` item copied verbatim (visibility dropped)
+            path = os.path.join(repo, val['file'])
+            if not os.path.exists(path):
+                raise LiftError("source file %s missing" % val['file'])
+            src = open(path, encoding='utf-8').read()
+            km = mask(src)
+            ms = list(code_finditer(src, km, r'\bconst\s+' + re.escape(val['name']) + r'\b'))
+            if len(ms) != 1:
+                raise LiftError("const %s found %d times in %s" % (val['name'], len(ms), val['file']))
+            a = ms[0].start()
+            e = a
+            while e < len(src) and not (src[e] == ';' and km[e] == CODE):
+                e += 1
+            # (`&str` in a const item is `&'static str`; Verus wants it spelled out)
+            text = 'pub ' + re.sub(r':\s*&str\b', ": &'static str", src[a:e + 1], count=1)
+            ln = src.count('\n', 0, a) + 1
+            out_lines.append((text, val['file'], ln))
+            infos.append({'name': 'const ' + val['name'], 'file': val['file'], 'fn': val['name'], 'gen_fn': None, 'impl': None,
+                          'rules': {}, 'subs': [], 'woven': [], 'labels': {}, 'span': '%s:%d-%d' % (val['file'], ln, ln),
+                          'sha256': hashlib.sha256(src[a:e + 1].encode()).hexdigest(), 'gen_lines': [len(out_lines), len(out_lines)],
+                          'is_canary': False, 'is_const': True})
         else:
             variants = [(False, None)]
             if canary and val.head.get('canary') != 'skip':
